@@ -1217,6 +1217,10 @@ func c06Run(c c06Case, nThreads int, models []c06Model, accept func([]string, []
 	bodies := make([][]string, nSt)
 	for i, st := range c.stages {
 		rd.lines = nil
+		// "the same import again is served from vm.modules" holds inside one evaluation only: a RunCode
+		// resets vm.modules, so an import repeated at the start of the NEXT stage would run the module's
+		// top-level code (and start its threads, under that stage's context) a second time
+		rd.lastImport = ""
 		if st.entry == "call" {
 			rd.emit(0, "func stage"+strconv.Itoa(i)+"() {")
 			rd.prog(st.prog, 0, 1)
